@@ -328,6 +328,10 @@ struct DoerContext {
     root: PathBuf,
     /// Stores details of a file we're partway through receiving.
     in_progress_file_receive: Option<(RootRelativePath, std::fs::File)>,
+    /// Set when a part of a multi-part file transfer has failed. The boss doesn't wait for our responses, so it may
+    /// already have sent us the remaining parts of that file. These must not be mistaken for the start of a new
+    /// transfer, as that would leave a truncated file with the source's modified time (which looks up-to-date).
+    failed_file_receive: Option<RootRelativePath>,
 }
 
 // Repeatedly waits for Commands from the boss and processes them (possibly sending back Responses).
@@ -411,12 +415,24 @@ fn exec_command(command: Command, comms: &mut Comms, context: &mut Option<DoerCo
             profile_this!(format!("CreateOrUpdateFile {}", path.to_string()));
         //    std::thread::sleep(std::time::Duration::from_nanos(1));
 
+            // Check if this is a left-over part of a file transfer that has already failed
+            if context.as_ref().unwrap().failed_file_receive.as_ref() == Some(&path) {
+                if !more_to_follow {
+                    context.as_mut().unwrap().failed_file_receive = None; // This was the final part of the failed transfer
+                }
+                comms.send_response(Response::Error(format!("Not writing file contents to '{}' as an earlier part of it failed", full_path.display())))?;
+                return Ok(true);
+            }
+            // If this part fails and there are more parts to follow, then those will need to be rejected too
+            let failed_file_receive = if more_to_follow { Some(path.clone()) } else { None };
+
             // Check if this is the continuation of an existing file
             let mut f = match context.as_mut().unwrap().in_progress_file_receive.take() {
                 Some((in_progress_path, f)) => {
                     if in_progress_path == path {
                         f
                     } else {
+                        context.as_mut().unwrap().failed_file_receive = failed_file_receive;
                         comms.send_response(Response::Error(format!("Unexpected continued file transfer!")))?;
                         return Ok(true);
                     }
@@ -424,6 +440,7 @@ fn exec_command(command: Command, comms: &mut Comms, context: &mut Option<DoerCo
                 None => match std::fs::File::create(&full_path) {
                     Ok(f) => f,
                     Err(e) => {
+                        context.as_mut().unwrap().failed_file_receive = failed_file_receive;
                         comms.send_response(Response::Error(format!("Error writing file contents to '{}': {e}", full_path.display())))?;
                         return Ok(true);
                     }
@@ -436,6 +453,7 @@ fn exec_command(command: Command, comms: &mut Comms, context: &mut Option<DoerCo
             #[cfg(rjrssync_verif)]
             verif_point("chunk-written");
             if let Err(e) = r {
+                context.as_mut().unwrap().failed_file_receive = failed_file_receive;
                 comms.send_response(Response::Error(format!("Error writing file contents to '{}': {e}", full_path.display())))?;
                 return Ok(true);
             }
@@ -532,6 +550,7 @@ fn handle_set_root(comms: &mut Comms, context: &mut Option<DoerContext>, root: S
     *context = Some(DoerContext {
         root: PathBuf::from(root),
         in_progress_file_receive: None,
+        failed_file_receive: None,
     });
     let context = context.as_ref().unwrap();
 
